@@ -25,6 +25,7 @@ func init() {
 func runC10(w *World, r *Report, tier string) {
 	kindRuleTexts(r)
 	unresolvedSeeds(w, r)
+	ruleLenCap(w, r)
 	ruleSignedField(w, r)
 	entries := entryFuncs(w, r, "shape.ConvertSpatialIdsToExtendedSpatialIds", "shape.ConvertExtendedSpatialIdsToSpatialIds",
 		"common/object.NewExtendedSpatialID", "common/object.(*ExtendedSpatialID).ResetExtendedSpatialID",
@@ -125,6 +126,7 @@ func runC11(w *World, r *Report, tier string) {
 		}
 	}
 	ruleEcho(w, r, lookupByName(w, names[2]), lookupByName(w, names[3]), lookupByName(w, names[4]), lookupByName(w, "transform.canaryBadEcho"), lookupByName(w, "transform.canaryGoodEcho"))
+	ruleDelegateOnce(w, r, "transform.ConvertSpatialIDsToQuadkeysAndVerticalIDs", "transform.ConvertExtendedSpatialIDsToQuadkeysAndVerticalIDs")
 	ruleErrUsed(w, r, map[*ssa.Function]bool{lookupByName(w, names[2]): true, lookupByName(w, names[3]): true, lookupByName(w, names[4]): true})
 	guardRows(w, r, "C11")
 }
@@ -158,6 +160,7 @@ func runC12(w *World, r *Report, tier string) {
 func runC13(w *World, r *Report, tier string) {
 	kindRuleTexts(r)
 	unresolvedSeeds(w, r)
+	ruleDelegateOnce(w, r, "transform.ConvertTileXYZsToSpatialIDs", "transform.ConvertTileXYZsToExtendedSpatialIDs")
 	entries := entryFuncs(w, r, "transform.ConvertTileXYZsToExtendedSpatialIDs", "transform.ConvertTileXYZsToSpatialIDs",
 		"common/object.NewTileXYZ", "common/object.(*TileXYZ).SetHZoom", "common/object.(*TileXYZ).SetVZoom")
 	ruleChunks(w, r, closureOf(w, entries))
